@@ -25,7 +25,7 @@ def _rename(o, back):
     return o
 
 
-def plan_case(sql, integrations=None, default_namespace='mindsdb', extra=None, rename_back=None):
+def plan_case(sql, integrations=None, default_namespace='mindsdb', extra=None, rename_back=None, handbuilt=False):
     """-> dict(status=..., [plan json]) for one SQL text.
     rename_back {name used in this catalog (lower case): canonical schema name}: the integration is called differently
     in this run (catalog and SQL text); semantic values are mapped back so that the schema of the model applies."""
@@ -50,6 +50,17 @@ def plan_case(sql, integrations=None, default_namespace='mindsdb', extra=None, r
             str(tree2)          # a caller may have printed / logged / compared the query before planning it
         except Exception:   # noqa
             pass
+        if handbuilt:
+            # the same tree the way a program may build it by hand: clause lists given as tuples
+            from .project import walk_objects
+
+            def tup(o, path):
+                d = getattr(o, '__dict__', None)
+                if d and type(o).__module__.startswith('mindsdb_sql'):
+                    for k in ('group_by', 'order_by', 'partition'):
+                        if isinstance(d.get(k), list) and d[k]:
+                            d[k] = tuple(d[k])
+            walk_objects(tree2, tup)
         plan = plan_query(tree2, integrations=list(integrations or INTEGRATIONS),
                           default_namespace=default_namespace, **(extra or {}))
     except PlanningException as e:
